@@ -297,7 +297,7 @@ func (p *sparser) expr(minPrec int) *SExpr {
 func (p *sparser) unary() *SExpr {
 	start := p.peek().p
 	t := p.peek()
-	if t.k == "op" && (t.s == "!" || t.s == "-" || t.s == "^") {
+	if t.k == "op" && (t.s == "!" || t.s == "-" || t.s == "^" || t.s == "&") {
 		p.next()
 		x := p.unary()
 		return p.mk("un", t.s, start, x)
@@ -580,7 +580,7 @@ func parseContractFile(path, pkg string) (*ContractFile, error) {
 			}
 		}
 		switch cl.Kind {
-		case "requires", "ensures", "panics_iff", "on_panic", "invariant", "decreases", "panics_only_if", "crash_invariant":
+		case "requires", "ensures", "panics_iff", "panics_if", "on_panic", "invariant", "decreases", "crash_invariant":
 			e, err := parseSpecExpr(rest)
 			if err != nil {
 				return nil, fail(l.no, "%v", err)
